@@ -1,3 +1,4 @@
+import Clover.Proofs.Crash
 import Clover.Generated.Facts
 import Clover.Props.C04
 /-! # C05 — acknowledged operations survive close/reopen/crash atomically
@@ -80,5 +81,45 @@ theorem commit_is_the_only_publication {α} (w : Bool) (body : StoreM α) (φ : 
 theorem failed_or_published (op : Op) (σ : DBState) (φ : Faults) (likeFn : LikeFn) (fnFam : FnFam)
     (h : (op.run likeFn fnFam σ φ).out.isErr = true) : (op.run likeFn fnFam σ φ).state = σ :=
   C04.failed_op_no_trace likeFn fnFam op σ φ h
+
+end CV.Props.C05
+
+namespace CV.Props.C05
+open CV
+
+variable (likeFn : LikeFn) (fnFam : FnFam)
+
+/-- **Crash atomicity of one call.**  Assuming the store's commit is atomic and durable (the trusted
+    base: bbolt / badger), whenever the process dies — after any number `k` of the store calls the
+    operation makes — the durable store is the store before the call or the store the completed call
+    leaves; nothing in between, for every operation, state and fault schedule. -/
+theorem crash_atomic (k : Nat) (op : Op) (σ : DBState) (φ : Faults) :
+    durableAfterCrash likeFn fnFam k op σ φ ∈ CrashOutcomes likeFn fnFam op σ φ :=
+  CV.crash_atomic likeFn fnFam k op σ φ
+
+/-- **Acknowledged operations survive**: if the process dies during the (j+1)-th call of a history,
+    the durable store is the store after the first `j` calls (all acknowledged ones are in) or
+    after the first `j+1` calls (the in-flight one is all or nothing) … -/
+theorem acknowledged_survive (h : List (Op × Faults)) (j k : Nat) (hj : j < h.length) :
+    crashHistory likeFn fnFam h j k = (runHistory likeFn fnFam (h.take j) {}).kv ∨
+    crashHistory likeFn fnFam h j k = (runHistory likeFn fnFam (h.take (j + 1)) {}).kv :=
+  CV.acknowledged_survive likeFn fnFam h j k hj
+
+/-- … and a call that had returned (all its store calls made) is in. -/
+theorem returned_survives (h : List (Op × Faults)) (j k : Nat) (hj : j < h.length)
+    (hk : (h[j]).1.ticks likeFn fnFam (runHistory likeFn fnFam (h.take j) {}) (h[j]).2 ≤ k) :
+    crashHistory likeFn fnFam h j k = (runHistory likeFn fnFam (h.take (j + 1)) {}).kv :=
+  CV.returned_survive likeFn fnFam h j k hj hk
+
+/-- **Whatever the crash point, the recovered store is consistent** (satisfies C06's invariant):
+    documents, index entries and counters agree without any rebuild. -/
+theorem recovered_state_is_consistent (h : List (Op × Faults)) (hok : ∀ p ∈ h, OpOK p.1) (j k : Nat) :
+    Inv (crashHistory likeFn fnFam h j k) := recovered_inv likeFn fnFam h hok j k
+
+/-- **Close and reopen change nothing**: every later history behaves on the reopened handle as on the
+    original one (and a closed handle refuses every operation, `C20.closed_handle_errors`). -/
+theorem reopen_is_identity (h : List (Op × Faults)) (σ : DBState) (hopen : σ.closed = false) :
+    runHistory likeFn fnFam h σ.close.reopen = runHistory likeFn fnFam h σ :=
+  reopen_history likeFn fnFam h σ hopen
 
 end CV.Props.C05
